@@ -34,6 +34,10 @@ def invariant(label, cond):
     return None
 
 
+def loop_phase():
+    return None
+
+
 def decreases(expr):
     return None
 
@@ -58,6 +62,10 @@ def bv_lemma(name):
         sys.path.append(root)
     from pyvc import crc_lemmas
     return crc_lemmas.native_check(name, seed=int(os.environ.get("VERIF_SEED", "0") or 0))
+
+
+def use_lemma(name, cond):
+    return None
 
 
 def by_tier(quick, thorough):
